@@ -13,14 +13,14 @@ def _linecov_start():
     mon = sys.monitoring
     hit = set()
     root = os.path.join(harness.REPO, 'parso') + os.sep
-    mon.use_tool_id(mon.COVERAGE_ID, 'vmon-linecov')
+    mon.use_tool_id(5, 'vmon-linecov')
 
     def on_line(code, line):
         if code.co_filename.startswith(root):
             hit.add((code.co_filename[len(root):], line))
         return mon.DISABLE
-    mon.register_callback(mon.COVERAGE_ID, mon.events.LINE, on_line)
-    mon.set_events(mon.COVERAGE_ID, mon.events.LINE)
+    mon.register_callback(5, mon.events.LINE, on_line)
+    mon.set_events(5, mon.events.LINE)
     return hit
 
 
